@@ -40,10 +40,11 @@ def run_brew(paths, learner="linear", folds=3, seed=0, test_fdr=0.05, train_fdr=
     out["datasets"] = datasets
     out["feature_columns"] = [list(d.feature_columns) for d in datasets]
     out["spectrum_columns"] = [list(d.spectrum_columns) for d in datasets]
-    model = make_model(datasets, learner, train_fdr, max_iter, seed, delay, override)
+    tag = recorder.new_run_tag()
+    model = make_model(datasets, learner, train_fdr, max_iter, seed, delay, override, tag=tag)
     c = core.Call(mokapot.brew, datasets, model=model, test_fdr=test_fdr, folds=folds, max_workers=max_workers,
                   rng=seed, subset_max_train=subset_max_train, ensemble=ensemble)
-    out["log"] = recorder.snapshot()
+    out["log"] = recorder.snapshot(tag)
     if not c.ok:
         out.update(status="refused" if c.explicit else "crash", error=c.info, sig=c.sig)
         return out
